@@ -82,7 +82,7 @@ def main():
         meta["ran"].append("cargo test --offline --test zz_seed_demo %s  (with the change): %s" % (feats, "FAILS" if fails_with else "passes"))
         os.remove(os.path.join(wt, "tests", "zz_seed_demo.rs"))
         rc_suite, out_suite = sh("cargo test --offline --lib --test cc --test auto_collect 2>&1 | grep -E '^test result|FAILED|error' ; cargo test --offline --lib -F weak-ptrs,cleaners 2>&1 | grep -E '^test result|FAILED|error'", cwd=wt)
-        suite_ok = "FAILED" not in out_suite and "error" not in out_suite and out_suite.count("test result: ok") >= 4
+        suite_ok = "FAILED" not in out_suite and not re.search(r"(?m)^error", out_suite) and out_suite.count("test result: ok") >= 4
         meta["ran"].append("cargo test --offline --lib --test cc --test auto_collect; cargo test --offline --lib -F weak-ptrs,cleaners (with the change; macro_tests fails in the baseline and is skipped): %s" % ("pass" if suite_ok else "FAIL: " + out_suite[-300:]))
         sh("git checkout -- src derive", cwd=wt)
         shutil.copy2(demo, os.path.join(wt, "tests", "zz_seed_demo.rs"))
